@@ -191,6 +191,11 @@ package document
 //@ ensures forall s *SectionProperties :: {s.XmlnsR} allocated(s) && (old(s.XmlnsR) != "" || !old(isFirstSect(d.Body.Elements, s))) ==> s.XmlnsR == old(s.XmlnsR)
 //@ ensures unchangedExcept("Body.Elements", "cell:any", "SectionProperties.XmlnsR", "SectionProperties.TitlePage")
 
+// hdrCanon / ftrCanon: every reference of a valid kind resolves to a relationship of the header (footer) type whose
+// target is the part name of that very kind.
+//@ spec hdrCanon(rs []*HeaderFooterReference, rels []Relationship) bool = forall q int :: {rs[q]} 0 <= q && q < len(rs) && rs[q] != nil && validKind(HeaderFooterType(rs[q].Type)) ==> relResolves(rels, rs[q].ID, "http://schemas.openxmlformats.org/officeDocument/2006/relationships/header", hfFile("header", HeaderFooterType(rs[q].Type)))
+//@ spec ftrCanon(rs []*FooterReference, rels []Relationship) bool = forall q int :: {rs[q]} 0 <= q && q < len(rs) && rs[q] != nil && validKind(HeaderFooterType(rs[q].Type)) ==> relResolves(rels, rs[q].ID, "http://schemas.openxmlformats.org/officeDocument/2006/relationships/footer", hfFile("footer", HeaderFooterType(rs[q].Type)))
+
 // ---- what goes into the part: the paragraph handed to the serialiser ----------------------------------------
 
 // The formatted header/footer paragraph carries exactly the text, alignment and run formatting of the call:
@@ -278,6 +283,12 @@ package document
 //@ ensures forall s *SectionProperties :: {s.HeaderReferences} allocated(s) && !old(isFirstSect(d.Body.Elements, s)) ==> s.HeaderReferences == old(s.HeaderReferences)
 //@ ensures forall s *SectionProperties :: {s.XmlnsR} allocated(s) && !old(isFirstSect(d.Body.Elements, s)) ==> s.XmlnsR == old(s.XmlnsR)
 //@ ensures forall s *SectionProperties :: {s.XmlnsR} allocated(s) && old(s.XmlnsR) != "" ==> s.XmlnsR == old(s.XmlnsR)
+// canonical references (the invariant behind "each kind has exactly one, current definition"): every reference of a valid kind
+// resolves, in the document relationship list, to a relationship of the right type whose target is the part of THAT kind
+//@ ensures err == nil && old(noSect(d.Body.Elements)) ==> hdrCanon(d.Body.Elements[old(len(d.Body.Elements))].(*SectionProperties).HeaderReferences, d.documentRelationships.Relationships) && ftrCanon(d.Body.Elements[old(len(d.Body.Elements))].(*SectionProperties).FooterReferences, d.documentRelationships.Relationships)
+//@ ensures err == nil ==> forall s *SectionProperties :: {s.HeaderReferences} allocated(s) && old(isFirstSect(d.Body.Elements, s)) && old(hdrNone(s.HeaderReferences, string(headerType))) && old(hdrCanon(s.HeaderReferences, d.documentRelationships.Relationships)) ==> hdrCanon(s.HeaderReferences, d.documentRelationships.Relationships)
+//@ ensures err == nil ==> forall s *SectionProperties, k int :: {s.HeaderReferences[k]} allocated(s) && old(isFirstSect(d.Body.Elements, s)) && old(hdrFirstAt(s.HeaderReferences, k, string(headerType))) && old(hdrCanon(s.HeaderReferences, d.documentRelationships.Relationships)) ==> s.HeaderReferences[k] == old(s.HeaderReferences[k]) && hdrCanon(s.HeaderReferences, d.documentRelationships.Relationships)
+//@ ensures err == nil ==> forall s *SectionProperties :: {s.FooterReferences} allocated(s) && old(isFirstSect(d.Body.Elements, s)) && old(ftrCanon(s.FooterReferences, d.documentRelationships.Relationships)) ==> ftrCanon(s.FooterReferences, d.documentRelationships.Relationships)
 //@ ensures unchangedExcept("map:string:[]byte", "Relationships.Relationships", "Relationship.*", "ContentTypes.Overrides", "Override.*", "Body.Elements", "cell:any", "SectionProperties.XmlnsR", "SectionProperties.HeaderReferences", "HeaderFooterReference.ID", "cell:*HeaderFooterReference")
 
 //@ func (*Document).AddFooter
@@ -330,6 +341,12 @@ package document
 //@ ensures forall s *SectionProperties :: {s.FooterReferences} allocated(s) && !old(isFirstSect(d.Body.Elements, s)) ==> s.FooterReferences == old(s.FooterReferences)
 //@ ensures forall s *SectionProperties :: {s.XmlnsR} allocated(s) && !old(isFirstSect(d.Body.Elements, s)) ==> s.XmlnsR == old(s.XmlnsR)
 //@ ensures forall s *SectionProperties :: {s.XmlnsR} allocated(s) && old(s.XmlnsR) != "" ==> s.XmlnsR == old(s.XmlnsR)
+// canonical references (the invariant behind "each kind has exactly one, current definition"): every reference of a valid kind
+// resolves, in the document relationship list, to a relationship of the right type whose target is the part of THAT kind
+//@ ensures err == nil && old(noSect(d.Body.Elements)) ==> hdrCanon(d.Body.Elements[old(len(d.Body.Elements))].(*SectionProperties).HeaderReferences, d.documentRelationships.Relationships) && ftrCanon(d.Body.Elements[old(len(d.Body.Elements))].(*SectionProperties).FooterReferences, d.documentRelationships.Relationships)
+//@ ensures err == nil ==> forall s *SectionProperties :: {s.FooterReferences} allocated(s) && old(isFirstSect(d.Body.Elements, s)) && old(ftrNone(s.FooterReferences, string(footerType))) && old(ftrCanon(s.FooterReferences, d.documentRelationships.Relationships)) ==> ftrCanon(s.FooterReferences, d.documentRelationships.Relationships)
+//@ ensures err == nil ==> forall s *SectionProperties, k int :: {s.FooterReferences[k]} allocated(s) && old(isFirstSect(d.Body.Elements, s)) && old(ftrFirstAt(s.FooterReferences, k, string(footerType))) && old(ftrCanon(s.FooterReferences, d.documentRelationships.Relationships)) ==> s.FooterReferences[k] == old(s.FooterReferences[k]) && ftrCanon(s.FooterReferences, d.documentRelationships.Relationships)
+//@ ensures err == nil ==> forall s *SectionProperties :: {s.HeaderReferences} allocated(s) && old(isFirstSect(d.Body.Elements, s)) && old(hdrCanon(s.HeaderReferences, d.documentRelationships.Relationships)) ==> hdrCanon(s.HeaderReferences, d.documentRelationships.Relationships)
 //@ ensures unchangedExcept("map:string:[]byte", "Relationships.Relationships", "Relationship.*", "ContentTypes.Overrides", "Override.*", "Body.Elements", "cell:any", "SectionProperties.XmlnsR", "SectionProperties.FooterReferences", "FooterReference.ID", "cell:*FooterReference")
 
 //@ func (*Document).AddHeaderWithPageNumber
@@ -398,6 +415,12 @@ package document
 //@ ensures forall s *SectionProperties :: {s.HeaderReferences} allocated(s) && !old(isFirstSect(d.Body.Elements, s)) ==> s.HeaderReferences == old(s.HeaderReferences)
 //@ ensures forall s *SectionProperties :: {s.XmlnsR} allocated(s) && !old(isFirstSect(d.Body.Elements, s)) ==> s.XmlnsR == old(s.XmlnsR)
 //@ ensures forall s *SectionProperties :: {s.XmlnsR} allocated(s) && old(s.XmlnsR) != "" ==> s.XmlnsR == old(s.XmlnsR)
+// canonical references (the invariant behind "each kind has exactly one, current definition"): every reference of a valid kind
+// resolves, in the document relationship list, to a relationship of the right type whose target is the part of THAT kind
+//@ ensures err == nil && old(noSect(d.Body.Elements)) ==> hdrCanon(d.Body.Elements[old(len(d.Body.Elements))].(*SectionProperties).HeaderReferences, d.documentRelationships.Relationships) && ftrCanon(d.Body.Elements[old(len(d.Body.Elements))].(*SectionProperties).FooterReferences, d.documentRelationships.Relationships)
+//@ ensures err == nil ==> forall s *SectionProperties :: {s.HeaderReferences} allocated(s) && old(isFirstSect(d.Body.Elements, s)) && old(hdrNone(s.HeaderReferences, string(headerType))) && old(hdrCanon(s.HeaderReferences, d.documentRelationships.Relationships)) ==> hdrCanon(s.HeaderReferences, d.documentRelationships.Relationships)
+//@ ensures err == nil ==> forall s *SectionProperties, k int :: {s.HeaderReferences[k]} allocated(s) && old(isFirstSect(d.Body.Elements, s)) && old(hdrFirstAt(s.HeaderReferences, k, string(headerType))) && old(hdrCanon(s.HeaderReferences, d.documentRelationships.Relationships)) ==> s.HeaderReferences[k] == old(s.HeaderReferences[k]) && hdrCanon(s.HeaderReferences, d.documentRelationships.Relationships)
+//@ ensures err == nil ==> forall s *SectionProperties :: {s.FooterReferences} allocated(s) && old(isFirstSect(d.Body.Elements, s)) && old(ftrCanon(s.FooterReferences, d.documentRelationships.Relationships)) ==> ftrCanon(s.FooterReferences, d.documentRelationships.Relationships)
 //@ ensures unchangedExcept("map:string:[]byte", "Relationships.Relationships", "Relationship.*", "ContentTypes.Overrides", "Override.*", "Body.Elements", "cell:any", "SectionProperties.XmlnsR", "SectionProperties.HeaderReferences", "HeaderFooterReference.ID", "cell:*HeaderFooterReference")
 
 //@ func (*Document).AddFooterWithPageNumber
@@ -466,6 +489,12 @@ package document
 //@ ensures forall s *SectionProperties :: {s.FooterReferences} allocated(s) && !old(isFirstSect(d.Body.Elements, s)) ==> s.FooterReferences == old(s.FooterReferences)
 //@ ensures forall s *SectionProperties :: {s.XmlnsR} allocated(s) && !old(isFirstSect(d.Body.Elements, s)) ==> s.XmlnsR == old(s.XmlnsR)
 //@ ensures forall s *SectionProperties :: {s.XmlnsR} allocated(s) && old(s.XmlnsR) != "" ==> s.XmlnsR == old(s.XmlnsR)
+// canonical references (the invariant behind "each kind has exactly one, current definition"): every reference of a valid kind
+// resolves, in the document relationship list, to a relationship of the right type whose target is the part of THAT kind
+//@ ensures err == nil && old(noSect(d.Body.Elements)) ==> hdrCanon(d.Body.Elements[old(len(d.Body.Elements))].(*SectionProperties).HeaderReferences, d.documentRelationships.Relationships) && ftrCanon(d.Body.Elements[old(len(d.Body.Elements))].(*SectionProperties).FooterReferences, d.documentRelationships.Relationships)
+//@ ensures err == nil ==> forall s *SectionProperties :: {s.FooterReferences} allocated(s) && old(isFirstSect(d.Body.Elements, s)) && old(ftrNone(s.FooterReferences, string(footerType))) && old(ftrCanon(s.FooterReferences, d.documentRelationships.Relationships)) ==> ftrCanon(s.FooterReferences, d.documentRelationships.Relationships)
+//@ ensures err == nil ==> forall s *SectionProperties, k int :: {s.FooterReferences[k]} allocated(s) && old(isFirstSect(d.Body.Elements, s)) && old(ftrFirstAt(s.FooterReferences, k, string(footerType))) && old(ftrCanon(s.FooterReferences, d.documentRelationships.Relationships)) ==> s.FooterReferences[k] == old(s.FooterReferences[k]) && ftrCanon(s.FooterReferences, d.documentRelationships.Relationships)
+//@ ensures err == nil ==> forall s *SectionProperties :: {s.HeaderReferences} allocated(s) && old(isFirstSect(d.Body.Elements, s)) && old(hdrCanon(s.HeaderReferences, d.documentRelationships.Relationships)) ==> hdrCanon(s.HeaderReferences, d.documentRelationships.Relationships)
 //@ ensures unchangedExcept("map:string:[]byte", "Relationships.Relationships", "Relationship.*", "ContentTypes.Overrides", "Override.*", "Body.Elements", "cell:any", "SectionProperties.XmlnsR", "SectionProperties.FooterReferences", "FooterReference.ID", "cell:*FooterReference")
 
 //@ func (*Document).AddFormattedHeader
@@ -523,6 +552,12 @@ package document
 //@ ensures forall s *SectionProperties :: {s.HeaderReferences} allocated(s) && !old(isFirstSect(d.Body.Elements, s)) ==> s.HeaderReferences == old(s.HeaderReferences)
 //@ ensures forall s *SectionProperties :: {s.XmlnsR} allocated(s) && !old(isFirstSect(d.Body.Elements, s)) ==> s.XmlnsR == old(s.XmlnsR)
 //@ ensures forall s *SectionProperties :: {s.XmlnsR} allocated(s) && old(s.XmlnsR) != "" ==> s.XmlnsR == old(s.XmlnsR)
+// canonical references (the invariant behind "each kind has exactly one, current definition"): every reference of a valid kind
+// resolves, in the document relationship list, to a relationship of the right type whose target is the part of THAT kind
+//@ ensures err == nil && old(noSect(d.Body.Elements)) ==> hdrCanon(d.Body.Elements[old(len(d.Body.Elements))].(*SectionProperties).HeaderReferences, d.documentRelationships.Relationships) && ftrCanon(d.Body.Elements[old(len(d.Body.Elements))].(*SectionProperties).FooterReferences, d.documentRelationships.Relationships)
+//@ ensures err == nil ==> forall s *SectionProperties :: {s.HeaderReferences} allocated(s) && old(isFirstSect(d.Body.Elements, s)) && old(hdrNone(s.HeaderReferences, string(headerType))) && old(hdrCanon(s.HeaderReferences, d.documentRelationships.Relationships)) ==> hdrCanon(s.HeaderReferences, d.documentRelationships.Relationships)
+//@ ensures err == nil ==> forall s *SectionProperties, k int :: {s.HeaderReferences[k]} allocated(s) && old(isFirstSect(d.Body.Elements, s)) && old(hdrFirstAt(s.HeaderReferences, k, string(headerType))) && old(hdrCanon(s.HeaderReferences, d.documentRelationships.Relationships)) ==> s.HeaderReferences[k] == old(s.HeaderReferences[k]) && hdrCanon(s.HeaderReferences, d.documentRelationships.Relationships)
+//@ ensures err == nil ==> forall s *SectionProperties :: {s.FooterReferences} allocated(s) && old(isFirstSect(d.Body.Elements, s)) && old(ftrCanon(s.FooterReferences, d.documentRelationships.Relationships)) ==> ftrCanon(s.FooterReferences, d.documentRelationships.Relationships)
 //@ ensures unchangedExcept("map:string:[]byte", "Relationships.Relationships", "Relationship.*", "ContentTypes.Overrides", "Override.*", "Body.Elements", "cell:any", "SectionProperties.XmlnsR", "SectionProperties.HeaderReferences", "HeaderFooterReference.ID", "cell:*HeaderFooterReference")
 
 //@ func (*Document).AddFormattedFooter
@@ -580,6 +615,12 @@ package document
 //@ ensures forall s *SectionProperties :: {s.FooterReferences} allocated(s) && !old(isFirstSect(d.Body.Elements, s)) ==> s.FooterReferences == old(s.FooterReferences)
 //@ ensures forall s *SectionProperties :: {s.XmlnsR} allocated(s) && !old(isFirstSect(d.Body.Elements, s)) ==> s.XmlnsR == old(s.XmlnsR)
 //@ ensures forall s *SectionProperties :: {s.XmlnsR} allocated(s) && old(s.XmlnsR) != "" ==> s.XmlnsR == old(s.XmlnsR)
+// canonical references (the invariant behind "each kind has exactly one, current definition"): every reference of a valid kind
+// resolves, in the document relationship list, to a relationship of the right type whose target is the part of THAT kind
+//@ ensures err == nil && old(noSect(d.Body.Elements)) ==> hdrCanon(d.Body.Elements[old(len(d.Body.Elements))].(*SectionProperties).HeaderReferences, d.documentRelationships.Relationships) && ftrCanon(d.Body.Elements[old(len(d.Body.Elements))].(*SectionProperties).FooterReferences, d.documentRelationships.Relationships)
+//@ ensures err == nil ==> forall s *SectionProperties :: {s.FooterReferences} allocated(s) && old(isFirstSect(d.Body.Elements, s)) && old(ftrNone(s.FooterReferences, string(footerType))) && old(ftrCanon(s.FooterReferences, d.documentRelationships.Relationships)) ==> ftrCanon(s.FooterReferences, d.documentRelationships.Relationships)
+//@ ensures err == nil ==> forall s *SectionProperties, k int :: {s.FooterReferences[k]} allocated(s) && old(isFirstSect(d.Body.Elements, s)) && old(ftrFirstAt(s.FooterReferences, k, string(footerType))) && old(ftrCanon(s.FooterReferences, d.documentRelationships.Relationships)) ==> s.FooterReferences[k] == old(s.FooterReferences[k]) && ftrCanon(s.FooterReferences, d.documentRelationships.Relationships)
+//@ ensures err == nil ==> forall s *SectionProperties :: {s.HeaderReferences} allocated(s) && old(isFirstSect(d.Body.Elements, s)) && old(hdrCanon(s.HeaderReferences, d.documentRelationships.Relationships)) ==> hdrCanon(s.HeaderReferences, d.documentRelationships.Relationships)
 //@ ensures unchangedExcept("map:string:[]byte", "Relationships.Relationships", "Relationship.*", "ContentTypes.Overrides", "Override.*", "Body.Elements", "cell:any", "SectionProperties.XmlnsR", "SectionProperties.FooterReferences", "FooterReference.ID", "cell:*FooterReference")
 
 // ---- END GENERATED ----
